@@ -274,7 +274,14 @@ class Session:
 
     def _skip(self, oid):
         only = os.environ.get('VERIF_ONLY')
-        return bool(only) and not re.search(only, oid)
+        return bool(only) and not re.search(only, self._oid(oid))
+
+    def _oid(self, oid):
+        """obligation groups shared between properties are re-labelled per property (S.alias)"""
+        for a, b in getattr(self, 'alias', {}).items():
+            if oid.startswith(a):
+                return b + oid[len(a):]
+        return oid
 
     # -- solving ---------------------------------------------------------
     def _solver(self, E, pre, timeout=None):
@@ -343,6 +350,7 @@ class Session:
         return ok
 
     def _record(self, oid, kind, desc, E, verdict, dt, extra=None):
+        oid = self._oid(oid)
         rec = {'obligation': oid, 'kind': kind, 'desc': desc, 'verdict': verdict, 'solver_s': round(dt, 3),
                'functions': sorted(E.encoded) if E is not None else [], 'unwind': E.unwind if E else None}
         if extra:
@@ -356,6 +364,7 @@ class Session:
         preconditions that together cover pre (case split; the caller states the cover)"""
         if self._skip(oid):
             return True
+        oid = self._oid(oid)
         s = self._solver(E, pre)
         if given_no_panic:
             # functional claim about panic-free executions; panic-freedom itself is a separate obligation
@@ -395,6 +404,7 @@ class Session:
         """no panic (overflow check, unwrap, assert, index) is reachable under pre"""
         if self._skip(oid):
             return True
+        oid = self._oid(oid)
         panics = [p for p in E.panics if only is None or only(p)]
         extra = {'bounds': bounds or '', 'pre': assumptions or [], 'panic_sites': len(panics)}
         if not panics:
@@ -439,6 +449,7 @@ class Session:
         """vacuity guard: pre (and cond) must be satisfiable"""
         if self._skip(oid):
             return True
+        oid = self._oid(oid)
         s = self._solver(E, pre, 60)
         s.add(X.zbool(cond))
         r, dt = self._check(s)
@@ -505,6 +516,7 @@ class Session:
                 reproduced = False
                 why = 'native output %s differs from the encoding (%s) for `%s`' % (out, 'panic' if exp_panic else expected, line)
         rec['replay'] = calls
+        oid = self._oid(oid)
         key = '%s %s' % (self.prop, oid)
         if reproduced:
             known = [k for k in self.known_findings if k['property'] == self.prop and k['obligation'] == oid and k['kind'] == 'finding']
@@ -528,8 +540,10 @@ class Session:
         """push concrete vectors through both the encoding and the native build"""
         if self._skip(oid):
             return True
+        oid = self._oid(oid)
         if self._skip(oid):
             return True
+        oid = self._oid(oid)
         n = n or (200 if self.tier == 'quick' else 1000)
         vecs = [list(v) for v in extra_vectors]
         doms = b.domain or [(0, (1 << 64) - 1)] * len(b.args)
@@ -577,6 +591,7 @@ class Session:
                     oid, line, out, ep, [subst_eval(o, b.args, v) for o in b.outs]))
                 if bad >= 3:
                     break
+        oid = self._oid(oid)
         self.records.append({'obligation': oid, 'kind': 'translator-validation', 'vectors': len(vecs), 'mismatches': bad,
                              'verdict': 'agree' if bad == 0 else 'mismatch', 'sample': sample, 'oracle_fn': b.name})
         self.log('  [%s] %-28s %-12s vectors=%d mismatches=%d' % (self.prop, oid, 'validate', len(vecs), bad))
